@@ -37,8 +37,19 @@ static unsigned verif_fmt_core(char* buf, uint64_t cap, const char* fmt, va_list
       if (len == -2) v &= 0xFF; else if (len == -1) v &= 0xFFFF;
       unsigned nd = 1;
       for (unsigned k = 1; k < 16; k++) if ((v >> (4 * k)) != 0) nd = k + 1;
-      for (unsigned k = nd; k < width; k++) PUTC(zero ? '0' : ' ');
-      for (unsigned k = nd; k > 0; k--) { unsigned d = (unsigned)((v >> (4 * (k - 1))) & 0xF); PUTC(d < 10 ? '0' + d : (cv == 'X' ? 'A' : 'a') + (d - 10)); }
+      unsigned maxd = len >= 1 ? 16 : (len == -2 ? 2 : (len == -1 ? 4 : 8));
+      if (width >= maxd) {
+        /* the field is always exactly `width` characters: emit it position by position so that the output length stays a
+         * constant for the solver (pad or digit decided per position) */
+        for (unsigned k = width; k > 0; k--) {
+          unsigned d = k <= 16 ? (unsigned)((v >> (4 * (k - 1))) & 0xF) : 0;
+          if (k > nd) PUTC(zero ? '0' : ' ');
+          else PUTC(d < 10 ? '0' + d : (cv == 'X' ? 'A' : 'a') + (d - 10));
+        }
+      } else {
+        for (unsigned k = nd; k < width; k++) PUTC(zero ? '0' : ' ');
+        for (unsigned k = nd; k > 0; k--) { unsigned d = (unsigned)((v >> (4 * (k - 1))) & 0xF); PUTC(d < 10 ? '0' + d : (cv == 'X' ? 'A' : 'a') + (d - 10)); }
+      }
     } else if ((cv == 'd' || cv == 'i' || cv == 'u') && len >= 0) {
       uint64_t mag; int neg = 0;
       if (cv == 'u') { mag = (len >= 1) ? va_arg(va, uint64_t) : (uint64_t)va_arg(va, unsigned int); }
